@@ -2,6 +2,7 @@ package nexus
 
 import (
 	"context"
+	"errors"
 	"fmt"
 	"sync"
 )
@@ -250,12 +251,39 @@ type VLANStats struct {
 }
 
 // LoadFromStore loads existing allocations from the store.
+//
+// Only records that are consistent with the configuration and with what is
+// already loaded are taken over: tags must lie inside the configured ranges, a
+// VLAN pair belongs to the first NTE that claims it and an NTE keeps the first
+// pair recorded for it. Every other record is skipped and reported in the
+// returned error (errors.Join); the allocator is consistent in either case, so
+// a caller may log the error and continue.
 func (v *VLANAllocator) LoadFromStore(ctx context.Context, ntes []*NTE) error {
 	v.mu.Lock()
 	defer v.mu.Unlock()
 
+	var skipped []error
 	for _, nte := range ntes {
-		if nte.STag == 0 || nte.CTag == 0 {
+		if nte == nil || nte.STag == 0 || nte.CTag == 0 {
+			continue
+		}
+
+		if nte.STag < v.config.STagRange.Start || nte.STag > v.config.STagRange.End ||
+			nte.CTag < v.config.CTagRange.Start || nte.CTag > v.config.CTagRange.End {
+			skipped = append(skipped, fmt.Errorf("NTE %s: VLAN pair (%d,%d) outside configured ranges", nte.ID, nte.STag, nte.CTag))
+			continue
+		}
+
+		if existing, ok := v.allocations[nte.ID]; ok {
+			if existing.STag != nte.STag || existing.CTag != nte.CTag {
+				skipped = append(skipped, fmt.Errorf("NTE %s: VLAN pair (%d,%d) ignored, NTE already holds (%d,%d)",
+					nte.ID, nte.STag, nte.CTag, existing.STag, existing.CTag))
+			}
+			continue
+		}
+
+		if owner, used := v.sTagUsage[nte.STag][nte.CTag]; used {
+			skipped = append(skipped, fmt.Errorf("NTE %s: VLAN pair (%d,%d) already allocated to NTE %s", nte.ID, nte.STag, nte.CTag, owner))
 			continue
 		}
 
@@ -272,7 +300,7 @@ func (v *VLANAllocator) LoadFromStore(ctx context.Context, ntes []*NTE) error {
 		v.sTagUsage[nte.STag][nte.CTag] = nte.ID
 	}
 
-	return nil
+	return errors.Join(skipped...)
 }
 
 // SyncToNTE updates an NTE with its VLAN allocation.
